@@ -167,6 +167,7 @@ func c14Pairs(c *Ctx) []pairSpec {
 }
 
 func runC14(c *Ctx) {
+	borrow(c, "O9", "C13", "O9", "restored before", "an undo re-adds the pod to its node with the fields the task carries at that moment: the node's per-GPU and per-status counters equal the recomputation from the pods only if the task was restored first")
 	borrow(c, "O8", "C13", "O8", "plugin handlers fire after the job and node were updated", "incremental queue accounting must be fed the values the node accounting used")
 	p := c.P
 	// O1: inverse pairs
